@@ -42,8 +42,11 @@ def c18_1(ctx, r):
     tup = {e.value for e in lp.iter.elts if isinstance(e, ast.Constant)}
     header = set()
     for n in iter_own(fn.node):
-        if isinstance(n, ast.Attribute) and isinstance(n.value, ast.Attribute) and ctx.src(n.value) == "self._config.hpc":
-            header.add(n.attr)
+        if isinstance(n, ast.Attribute) and isinstance(n.ctx, ast.Load):
+            rr = render(ctx, fn, n)
+            for cname in ("SlurmConfig", "FakeHpcConfig"):
+                if rr.startswith(f"<{cname}.") and rr.endswith(">"):
+                    header.add(n.attr)
     missing = fields - tup - header
     extra = (tup | header) - fields
     r.check(not missing, "every SlurmConfig field reaches the script", key_of(fn, f"fields not emitted {sorted(missing)}"), fn.loc(lp),
@@ -57,14 +60,15 @@ def c18_1(ctx, r):
     n, c = apps[0]
     forms = guard_forms(ctx, fn, n, ALL_KINDS, kill=False)
     pv = lp.target.id
-    okg = any((not p) and f.replace(" ", "") in (f"getattr(<HpcConfig.hpc>,{pv},None)isNone", f"getattr(self._config.hpc,{pv},None)isNone", "valueisNone") for f, p in forms)
+    okg = any((not p) and f.replace(" ", "") in (f"getattr(<HpcConfig.hpc>,{pv},None)isNone", f"getattr(self._config.hpc,{pv},None)isNone", f"getattr(hpc,{pv},None)isNone", "valueisNone") for f, p in forms)
     r.check(okg, "an optional parameter is emitted iff its value is not None", key_of(fn, "optional guard"), fn.loc(c), f"the optional line is emitted under {sorted(('' if p else 'not ') + f for f, p in forms)}", "every optional parameter that is set")
     txt = render(ctx, fn, c.args[0])
     r.check(txt.replace(" ", "") == "f'#SBATCH--{" + pv + "}={value}'", "line = #SBATCH --<param>=<value>", key_of(fn, "optional line text"), fn.loc(c), f"the optional line is {txt}")
     ud = None
     for d in ctx.rd(fn).reaching(n, "value"):
         ud = ctx.rd(fn).defs_at[d].get("value")
-    r.check(isinstance(ud, ast.AST) and ctx.src(ud).replace(" ", "") == f"getattr(self._config.hpc,{pv},None)", "value = getattr(self._config.hpc, param, None)", key_of(fn, "value source"), fn.loc(lp), f"value is {ctx.src(ud) if isinstance(ud, ast.AST) else None}")
+    okv = isinstance(ud, ast.Call) and ctx.src(ud.func) == "getattr" and len(ud.args) == 3 and render(ctx, fn, ctx.guards(fn).expand(ud.args[0], n)) == "<HpcConfig.hpc>" and ctx.src(ud.args[1]) == pv and ctx.src(ud.args[2]) == "None"
+    r.check(okv, "value = getattr(<the hpc config>, param, None)", key_of(fn, "value source"), fn.loc(lp), f"value is {ctx.src(ud) if isinstance(ud, ast.AST) else None}")
 
 
 @rule(P, "C18.2", "T8", "the fixed header reads account / job name / walltime / output path; srun runs the given script", min_obligations=7)
